@@ -139,7 +139,8 @@ class OpaqueBox(T):
         return 3 if self.optional else 2
 
 
-SLICE_MAX = 3
+import os as _os
+SLICE_MAX = 4 if _os.environ.get("VERIF_TIER") == "thorough" else 3
 
 
 class Slice(T):
